@@ -176,7 +176,9 @@ func zzFiveWays(text string, fullWant, incrWant map[string]int64) (rejected bool
 	// 2. builder, incremental
 	rb2 := zzBuilder()
 	s2 := zzSnapKc(rb2.Kc)
+	vnd.ExploreMapOrder(true)
 	e2 := rb2.BuildRuleWithIncremental(text)
+	vnd.ExploreMapOrder(false)
 	vnd.Assert((e2 != nil) == rejected, "incremental build accepts exactly what full build accepts")
 	if e2 != nil {
 		zzSame(rb2.Kc, s2)
@@ -206,7 +208,9 @@ func zzFiveWays(text string, fullWant, incrWant map[string]int64) (rejected bool
 	// 5. pool, incremental update
 	gp2 := zzPool(1, 2, SortModel)
 	s5 := zzSnapKc(gp2.ruleBuilder.Kc)
+	vnd.ExploreMapOrder(true)
 	e5 := gp2.UpdatePooledRulesIncremental(text)
+	vnd.ExploreMapOrder(false)
 	vnd.Assert((e5 != nil) == rejected, "pool incremental update accepts exactly what full build accepts")
 	if e5 != nil {
 		zzSame(gp2.ruleBuilder.Kc, s5)
@@ -242,6 +246,9 @@ func M1_outcome() {
 		{"good", good, 0, fullW, incrW},
 		{"one_new", "rule \"n\" begin\n ver(\"n\", 2)\nend\n", 0, "map[string]int64{\"n\": 2}", "map[string]int64{\"a\": 1, \"b\": 1, \"n\": 2}"},
 		{"replace_a", "rule \"a\" \"x\" salience 1 begin\n ver(\"a\", 2)\nend\n", 0, "map[string]int64{\"a\": 2}", "map[string]int64{\"a\": 2, \"b\": 1}"},
+		{"new_before_same_salience_replace", "rule \"aa\" salience 8 begin\n ver(\"aa\", 2)\nend\nrule \"b\" \"nb\" salience 5 begin\n ver(\"b\", 2)\nend\n", 0, "map[string]int64{\"aa\": 2, \"b\": 2}", "map[string]int64{\"a\": 1, \"aa\": 2, \"b\": 2}"},
+		{"new_after_same_salience_replace", "rule \"a\" \"na\" salience 9 begin\n ver(\"a\", 2)\nend\nrule \"zz\" salience 20 begin\n ver(\"zz\", 2)\nend\n", 0, "map[string]int64{\"a\": 2, \"zz\": 2}", "map[string]int64{\"a\": 2, \"b\": 1, \"zz\": 2}"},
+		{"two_new_one_replace", "rule \"m\" salience 6 begin\n ver(\"m\", 2)\nend\nrule \"b\" salience 5 begin\n ver(\"b\", 2)\nend\nrule \"c\" salience 1 begin\n ver(\"c\", 2)\nend\n", 0, "map[string]int64{\"m\": 2, \"b\": 2, \"c\": 2}", "map[string]int64{\"a\": 1, \"m\": 2, \"b\": 2, \"c\": 2}"},
 		{"dup_name", good + "rule \"x\" begin\n ver(\"x\", 3)\nend\n", 1, "nil", "nil"},
 		{"dup_name_first", "rule \"b\" begin\n ver(\"b\", 2)\nend\nrule \"b\" begin\n ver(\"b\", 3)\nend\n", 1, "nil", "nil"},
 		{"empty_name", "rule \"\" begin\n ver(\"e\", 2)\nend\n", 1, "nil", "nil"},
